@@ -443,7 +443,7 @@ Qed.
 (** regression: the input that used to leave the row height written and the frame stale *)
 Lemma resize_rejected_regression :
   exists t, new_tbl 1 1 100 100 = Ok t /\ step t (SetRowH 0 (-5)) = (t, Err ValueErr).
-Proof. eexists. split; vm_compute; reflexivity. Qed.
+Proof. eexists. split; [vm_compute; reflexivity|]. vm_compute. reflexivity. Qed.
 
 (* ================================================================== invariant: easy operations *)
 Lemma Inv_at_sizes t t' regs :
@@ -846,9 +846,9 @@ Proof.
     unfold merge_foreign in E. destruct (get _ _ _); discriminate.
   - destruct (split _ _ _) eqn:E; simpl; auto. apply split_length in E. auto.
   - unfold set_row_h. destruct (_ <? _); auto. destruct (in_coord _); auto.
-    destruct (in_poscoord _); simpl; rewrite length_set_nth; auto.
+    destruct (in_poscoord _); simpl; rewrite ?length_set_nth; auto.
   - unfold set_col_w. destruct (_ <? _); auto. destruct (in_coord _); auto.
-    destruct (in_poscoord _); simpl; rewrite length_set_nth; auto.
+    destruct (in_poscoord _); simpl; rewrite ?length_set_nth; auto.
   - destruct (set_text _ _ _ _) eqn:E; simpl; auto. apply set_text_length in E. auto.
 Qed.
 
